@@ -77,7 +77,7 @@ func vcScenC06(t *vcTrial) {
 		return
 	}
 	cfg := vc06Cfg{Network: []string{"tcp", "unix"}[r.intn(2)]}
-	cfg.Handler = []string{"all", "all", "frame", "some", "block"}[r.intn(5)]
+	cfg.Handler = []string{"all", "all", "frame", "some", "block", "deadline"}[r.intn(6)]
 	cfg.Chunks = r.rng(1, 12)
 	if r.chance(35) {
 		cfg.OnConnectUs = []int{0, 100, 1000, 4000}[r.intn(4)] + 1
@@ -171,6 +171,21 @@ func vcRunC06(t *vcTrial, cfg vc06Cfg) {
 		case "some":
 			if l := rd.Len(); l > 0 {
 				take(hr.rng(1, l))
+			}
+		case "deadline":
+			// a handler that works with read deadlines: now and then the deadline has already passed
+			// when it asks for more than is buffered (ErrReadTimeout at once, nothing consumed), it
+			// tolerates that, clears the deadline and takes what is there. The next delivery must
+			// start the handler again like any other.
+			if l := rd.Len(); l > 0 {
+				if hr.chance(40) {
+					rec.Conn.SetReadDeadline(time.Now().Add(-time.Millisecond))
+					if _, err := rd.Next(l + vc06Frame); err == nil {
+						bad.Store("Next for more than is buffered succeeded under an expired read deadline")
+					}
+					rec.Conn.SetReadDeadline(time.Time{})
+				}
+				take(l)
 			}
 		case "block":
 			// asks for more than is buffered: a blocking read inside the handler
